@@ -179,6 +179,10 @@ def bracket_forms(part, asm):
                     ('number+symbol', '[%s+foo+%d]' % (ad, n), ['%d+foo[%s]' % (n, ad), 'foo[%s+%d]' % (ad, n), '[foo+%s+%d]' % (ad, n), '[%d+foo+%s]' % (n, ad)]),
                     ('minus-number+symbol', '[%s+foo-%d]' % (ad, n), ['-%d+foo[%s]' % (n, ad), 'foo[%s-%d]' % (ad, n), '[foo+%s-%d]' % (ad, n)]),
                 ]
+                if n in (4, 128):
+                    groups.append(('constant-arithmetic', '[%s+%d]' % (ad, n), ['[%s+%d-%d]' % (ad, 2 * n, n), '[%s-%d+%d]' % (ad, n, 2 * n), '[%d+%s-%d]' % (2 * n, ad, n),
+                                                                               '[%s+%d+%d]' % (ad, n // 2, n // 2), '[%s+%d-%d-%d]' % (ad, 4 * n, 2 * n, n)]))
+                    groups.append(('constant-arithmetic', '[%s-%d]' % (ad, n), ['[%s-%d+%d]' % (ad, 2 * n, n), '[%s+%d-%d]' % (ad, n, 2 * n), '[%s-%d-%d]' % (ad, n // 2, n // 2)]))
                 for kind, inside, variants in groups:
                     if kind == 'symbol' and n != 4:
                         continue
